@@ -319,6 +319,8 @@ func (r *runtime) InstantiateModule(
 	// Only add guest module configuration to guests.
 	if !code.module.IsHostModule {
 		if sockConfig, ok := ctx.Value(internalsock.ConfigKey{}).(*internalsock.Config); ok {
+			// Configuration is immutable: don't write into the caller's value.
+			config = config.clone()
 			config.sockConfig = sockConfig
 		}
 	}
